@@ -111,9 +111,11 @@ func main() {
 	loadS := time.Since(t0).Seconds()
 	perObl := *timeout
 	if perObl == 0 {
-		perObl = 10
+		// the slowest obligation of the unchanged tree takes about 8 s on 16 idle
+		// cores; the budget leaves a factor of five for a slower or busier machine
+		perObl = 45
 		if *tier == "thorough" {
-			perObl = 60
+			perObl = 150
 		}
 	}
 	switch cmd {
@@ -201,6 +203,9 @@ func printFuncResult(r *FuncResult, all bool) {
 			if o.Model != "" && o.Status != "known" {
 				fmt.Printf("      model: %s\n", modelSummary(o))
 			}
+		}
+		if os.Getenv("GOVC_TIMES") != "" && (o.Secs > 1.0 || !(strings.Contains(o.Solver, "sliced") || strings.Contains(o.Solver, "incremental"))) {
+			fmt.Printf("   SLOW %.1fs %-28s %s\n", o.Secs, o.Solver, strings.TrimPrefix(o.Name, r.Key+"/"))
 		}
 	}
 }
